@@ -14,7 +14,9 @@ use std::path::PathBuf;
 use std::process::{Child, Command, Stdio};
 use std::time::{Duration, Instant};
 
-pub const HANG_SECS: u64 = 20;
+/// (20 s until the end of round 19: a benign regression run on a heavily loaded machine then saw one shard of C15
+/// make no progress for 20 s - not reproducible - so the limit is now a minute; a real hang is still found, later)
+pub const HANG_SECS: u64 = 60;
 
 pub fn root() -> PathBuf {
     PathBuf::from(std::env::var("VERIF_ROOT").unwrap_or_else(|_| "/verif".into()))
@@ -282,7 +284,7 @@ pub fn check(prop: &str, tier: &str) -> i32 {
         match end {
             JobEnd::Done => merge_one(&mut m, &job),
             JobEnd::Died(s) => failed.push((job, format!("worker died ({})", s))),
-            JobEnd::Hung => failed.push((job, format!("no progress for {} s (hang)", HANG_SECS))),
+            JobEnd::Hung => failed.push((job, format!("no progress for {} s (hang)", std::env::var("JLMC_HANG_SECS").ok().and_then(|s| s.parse::<u64>().ok()).unwrap_or(HANG_SECS)))),
         }
     }
     if !failed.is_empty() {
